@@ -88,6 +88,17 @@ func harnessOverlay(verifRoot string, dirs []string) (map[string][]byte, error) 
 			}
 		}
 	}
+	// dial hook (H-dial): the real dialer.go, regenerated from /repo on every run, with one
+	// line inserted at the top of dialOne that consults a harness-provided hook
+	if b, err := os.ReadFile(filepath.Join(repoRoot, "dialer.go")); err == nil {
+		src := string(b)
+		sig := "func (d *Dialer) dialOne(addr string) (net.Conn, error) {\n"
+		if strings.Contains(src, sig) && !strings.Contains(src, "vxDialHook") {
+			src = strings.Replace(src, sig, sig+"\tif vxDialHook != nil {\n\t\treturn vxDialHook(addr)\n\t}\n", 1)
+			src += "\n// vxDialHook is installed by verification harnesses (overlay only).\nvar vxDialHook func(addr string) (net.Conn, error)\n\n// VXSetDialHook installs the dial hook (overlay only).\nfunc VXSetDialHook(f func(addr string) (net.Conn, error)) { vxDialHook = f }\n"
+			ov[filepath.Join(repoRoot, "dialer.go")] = []byte(src)
+		}
+	}
 	// QUIC stub so that the root package type-checks/links without qtls
 	if b, err := os.ReadFile(filepath.Join(verifRoot, "overlay", "quic_stub.go.txt")); err == nil {
 		ov[filepath.Join(repoRoot, "quic", "quic.go")] = b
